@@ -438,43 +438,6 @@ int main(int argc, char** argv) {
       return 3;
     }
   }
-  if (A.get("bench") == "1") {  // harness self-timing only
-    double t0 = vp::rawNow();
-    for (int i = 0; i < 300; i++) { W = freshWorld(false); delete W; }
-    double t1 = vp::rawNow();
-    W = freshWorld(false);
-    for (int i = 0; i < 300; i++) probe();
-    double t2 = vp::rawNow();
-    fprintf(stderr, "world build+teardown %.3f ms, probe %.3f ms\n", (t1 - t0) / 300 * 1e3, (t2 - t1) / 300 * 1e3);
-    t0 = vp::rawNow();
-    for (int i = 0; i < 300; i++) { W->newLoop("", true, g_wc.aclContent); }
-    t1 = vp::rawNow();
-    for (int i = 0; i < 300; i++) { MessageMap* m = new MessageMap(false, "", false); std::istringstream defs(DEFS); string e; time_t now = g_now; m->readFromStream(&defs, "defs.csv", now, false, nullptr, &e); delete m; }
-    t2 = vp::rawNow();
-    fprintf(stderr, "mainloop new+delete (with acl file write) %.3f ms, messagemap load %.3f ms\n", (t1 - t0) / 300 * 1e3, (t2 - t1) / 300 * 1e3);
-    {
-      double a = vp::rawNow();
-      for (int i = 0; i < 300; i++) { ebus_protocol_config_t pc; memset(&pc, 0, sizeof(pc)); pc.device = "fake"; pc.ownAddress = 0x31; FakeProtocol* fp = new FakeProtocol(pc, new FakeDevice(), W->busHandler); delete fp; }
-      double b = vp::rawNow();
-      for (int i = 0; i < 300; i++) { MainLoop* ml = new MainLoop(W->opt, W->busHandler, W->messages, W->scanHelper, W->queue); delete ml; }
-      double c = vp::rawNow();
-      for (int i = 0; i < 300; i++) { W->scanHelper->executeInstructions(W->busHandler); }
-      double d = vp::rawNow();
-      for (int i = 0; i < 300; i++) { HttpClient* h = new HttpClient(); delete h; }
-      double e = vp::rawNow();
-      for (int i = 0; i < 300; i++) { MessageMap* m = new MessageMap(true, "", false); delete m; }
-      double f = vp::rawNow();
-      fprintf(stderr, "FakeProtocol %.3f ms, MainLoop %.3f ms, executeInstructions %.3f ms, HttpClient %.3f, MessageMap(addAll) %.3f\n", (b - a) / 300 * 1e3, (c - b) / 300 * 1e3, (d - c) / 300 * 1e3, (e - d) / 300 * 1e3, (f - e) / 300 * 1e3);
-    }
-    const char* lines[] = {"read -h 08b5090", "help", "find -l", "/datatypes", "/templates", "/data"};
-    for (const char* l : lines) {
-      t0 = vp::rawNow();
-      for (int i = 0; i < 200; i++) { Case c{l[0] == '/' ? "http" : "tcp", l}; execCase(c); }
-      t1 = vp::rawNow();
-      fprintf(stderr, "case <%s> %.3f ms\n", l, (t1 - t0) / 200 * 1e3);
-    }
-    return 0;
-  }
   if (A.replay) {
     int rc = replay(A.replayCase);
     rmTree(g_tmp);
